@@ -123,14 +123,26 @@ fn cargo_build(name: &str) -> (bool, BTreeMap<usize, String>, String) {
         let mut attributed = false;
         if let Some(spans) = m["spans"].as_array() {
             for sp in spans {
-                let f = sp["file_name"].as_str().unwrap_or("");
-                if let Some(pos) = f.find(&marker) {
-                    let rest = &f[pos + marker.len()..];
-                    let num: String = rest.chars().take_while(|c| c.is_ascii_digit()).collect();
-                    if let Ok(i) = num.parse::<usize>() {
-                        per_mod.entry(i).or_insert_with(|| text.clone());
-                        attributed = true;
+                // the span itself, or any call site in its macro-expansion chain: an error inside
+                // the expansion of rt::act!/actf! (semantic actions, which use only the documented
+                // handle methods) written in module mK belongs to mK's definition
+                let mut cur = sp;
+                loop {
+                    let f = cur["file_name"].as_str().unwrap_or("");
+                    if let Some(pos) = f.find(&marker) {
+                        let rest = &f[pos + marker.len()..];
+                        let num: String = rest.chars().take_while(|c| c.is_ascii_digit()).collect();
+                        if let Ok(i) = num.parse::<usize>() {
+                            per_mod.entry(i).or_insert_with(|| text.clone());
+                            attributed = true;
+                            break;
+                        }
                     }
+                    let next = &cur["expansion"]["span"];
+                    if next.is_null() {
+                        break;
+                    }
+                    cur = next;
                 }
             }
         }
